@@ -553,6 +553,8 @@ def run(ctx):
     ctx.cov['bulk_pending_sequences'] = len(bjobs)
     # ---- the schedule dimension: the networking thread handles a delivery while the miner thread publishes a found block
     thr = thrscen.run(ctx, 'MN', 1 if ctx.quick else 2, names=['found-vs-valid-sibling-delivery', 'found-vs-invalid-delivery', 'found-vs-transaction-delivery'], only=['C09:'])
+    thr_c = thrscen.run(ctx, 'MNc', 2 if ctx.quick else 3, names=['found-vs-valid-sibling-delivery', 'found-vs-invalid-delivery', 'found-vs-transaction-delivery'], only=['C09:'])   # coarser points, one preemption more
+    ctx.cov['thread_schedules_coarse'] = thr_c
     ctx.cov['thread_schedules'] = thr
     ctx.cov.update({
         'states': stats['states'], 'transitions': stats['transitions'], 'traces_validated_against_impl': stats['transitions'],
